@@ -1,193 +1,312 @@
 (* C09 — the locking discipline of cache.Cache, as a small-step model.
 
-   Threads run programs (lists of method calls) against one shared sequential object
-   [seq : S -> O -> S * R].  A call goes through
-       call     (emit the invocation)
-       acquire  (only when the mutex is free; methods that are not lock-wrapped skip it)
-       read     (first micro-step of the body: take a snapshot of the shared state)
-       write    (second micro-step: store the state computed from the snapshot, fix the result)
-       release  (lock-wrapped methods free the mutex)
+   Threads run programs (lists of method calls) against one shared object.  A call of operation o
+   makes the critical sections [shape o : list mode] in order; section k computes, from a snapshot
+   of the shared state and the call's local state, a new shared state and a new local state
+   ([sec o k l s]); the call returns [fin o l].  The small steps of a call:
+       call     (emit the invocation; the call gets a fresh identifier)
+       enter    (take the mutex in the section's mode: Excl needs no holder at all, Shar needs no
+                 exclusive holder, Unl takes nothing)
+       read     (take a snapshot of the shared state)
+       write    (store the state computed from the snapshot; emit an "effect" event)
+       leave    (give the mutex back)
+       ... the next section, if any ...
        return   (emit the response).
-   The two micro-steps of a method need the mutex iff the method is lock-wrapped ([locked o]);
-   a method that is not may run them whenever it likes, in particular between another method's
-   read and write — which is how a dropped Lock shows up in this model (lost updates).
+   Between a call's read and write any other thread may take steps it is allowed to take: with an
+   Unl section, or with two Shar sections, that includes another read/write (lost update); and
+   between two sections of one call anything may happen (check-then-act).  The sequential meaning of
+   an operation, [seq], is its sections run back to back.
 
-   The full trace records invocations, responses and, at every write, a linearization event.
-   Theorem [all_locked_linearizable]: if every method is lock-wrapped then, for every schedule and
-   every prefix, the history (trace without the linearization events) is linearizable in the
-   linearization-point form: there is a placement of one point per call (the trace itself) such
-   that (1) the calls in the order of their points, with the results they returned, are a legal
-   sequential run of the object from its initial state, and (2) every thread's events are
-   invocation, point, response, in that order, call after call (so each point lies between its
-   call's invocation and response; the order of points therefore respects real-time order). *)
+   The history of a run is the list of invocation and response events (EInv, ERes).
+
+   Definition [linearizable] is Herlihy and Wing's: there is a sequence Sq of calls, without
+   repetition, containing every completed call of the history with the result it returned and
+   otherwise only calls that were invoked (pending calls may be included, with some result), that
+   is a legal sequential run of the object from its initial state, and that respects real-time
+   order: a call whose response precedes another call's invocation in the history comes first.
+
+   Theorem [atomic_linearizable]: if every operation is ONE critical section that is either
+   exclusive, or shared and does not change the state, then for every schedule and every prefix the
+   history is linearizable (witness: the calls in the order of their writes).
+   The hypothesis is necessary: Cache/ConcRefute.v runs a check-then-act method (two exclusive
+   sections) to a history that is not linearizable. *)
 From Coq Require Import List Arith Bool Lia.
 Import ListNotations.
+From Mds Require Import Cache.ConcShape.
 
 Section Conc.
-Variables S O R : Type.
-Variable seq : S -> O -> S * R.
-Variable locked : O -> bool.
+Variables S O R L : Type.
+Variable shape : O -> list mode.
+Variable sec : O -> nat -> L -> S -> S * L.
+Variable l0 : L.
+Variable fin : O -> L -> R.
 Variable init : S.
 
+(* ---- the sequential object: the sections of a call run back to back ---- *)
+Fixpoint run_secs (o : O) (k : nat) (ms : list mode) (l : L) (s : S) : S * L :=
+  match ms with
+  | [] => (s, l)
+  | _ :: ms' => run_secs o (Datatypes.S k) ms' (snd (sec o k l s)) (fst (sec o k l s))
+  end.
+
+Definition seq (s : S) (o : O) : S * R :=
+  (fst (run_secs o 0 (shape o) l0 s), fin o (snd (run_secs o 0 (shape o) l0 s))).
+
+(* ---- configurations and steps ---- *)
 Inductive phase :=
 | Idle
-| Invoked (o : O)
-| Acquired (o : O)
-| Read (o : O) (snap : S)
-| Written (o : O) (r : R)
-| Released (o : O) (r : R).
+| Between (n : nat) (o : O) (k : nat) (l : L)        (* call n of o: sections < k done, nothing held *)
+| Holding (n : nat) (o : O) (k : nat) (l : L)        (* has entered section k *)
+| Snapped (n : nat) (o : O) (k : nat) (l : L) (snap : S)
+| Stored (n : nat) (o : O) (k : nat) (l : L).        (* section k has written; l is the new local state *)
 
 Inductive ev :=
-| EInv (t : nat) (o : O)
-| ELin (t : nat) (o : O) (r : R)
-| ERes (t : nat) (o : O) (r : R).
+| EInv (t n : nat) (o : O)
+| EEff (t n : nat) (o : O) (r : R)    (* a section of call n wrote; r = what the call would return now *)
+| ERes (t n : nat) (o : O) (r : R).
 
 Record config := {
   shared : S;
-  lock : option nat;
+  wr : option nat;          (* the exclusive holder of the mutex *)
+  rd : list nat;            (* the shared holders *)
   ph : nat -> phase;
   prog : nat -> list O;
-  trace : list ev            (* oldest first *)
+  next : nat;               (* the next call identifier *)
+  trace : list ev           (* oldest first *)
 }.
 
 Definition upd {A} (f : nat -> A) (t : nat) (x : A) : nat -> A := fun u => if Nat.eqb u t then x else f u.
 
-(* may thread t run a micro-step of method o now? *)
-Definition may_touch (c : config) (t : nat) (o : O) : Prop := locked o = false \/ lock c = Some t.
+Definition can_take (c : config) (m : mode) : Prop :=
+  match m with
+  | Excl => wr c = None /\ rd c = []
+  | Shar => wr c = None
+  | Unl => True
+  end.
+
+Definition take_wr (c : config) (t : nat) (m : mode) : option nat := match m with Excl => Some t | _ => wr c end.
+Definition take_rd (c : config) (t : nat) (m : mode) : list nat := match m with Shar => t :: rd c | _ => rd c end.
+Definition give_wr (c : config) (m : mode) : option nat := match m with Excl => None | _ => wr c end.
+Definition give_rd (c : config) (t : nat) (m : mode) : list nat :=
+  match m with Shar => remove Nat.eq_dec t (rd c) | _ => rd c end.
 
 Inductive cstep : config -> config -> Prop :=
 | s_call t o rest c : ph c t = Idle -> prog c t = o :: rest ->
-    cstep c {| shared := shared c; lock := lock c; ph := upd (ph c) t (Invoked o);
-               prog := upd (prog c) t rest; trace := trace c ++ [EInv t o] |}
-| s_acquire t o c : ph c t = Invoked o -> locked o = true -> lock c = None ->
-    cstep c {| shared := shared c; lock := Some t; ph := upd (ph c) t (Acquired o);
-               prog := prog c; trace := trace c |}
-| s_nolock t o c : ph c t = Invoked o -> locked o = false ->
-    cstep c {| shared := shared c; lock := lock c; ph := upd (ph c) t (Acquired o);
-               prog := prog c; trace := trace c |}
-| s_read t o c : ph c t = Acquired o -> may_touch c t o ->
-    cstep c {| shared := shared c; lock := lock c; ph := upd (ph c) t (Read o (shared c));
-               prog := prog c; trace := trace c |}
-| s_write t o snap c : ph c t = Read o snap -> may_touch c t o ->
-    cstep c {| shared := fst (seq snap o); lock := lock c; ph := upd (ph c) t (Written o (snd (seq snap o)));
-               prog := prog c; trace := trace c ++ [ELin t o (snd (seq snap o))] |}
-| s_release t o r c : ph c t = Written o r ->
-    cstep c {| shared := shared c; lock := if locked o then None else lock c; ph := upd (ph c) t (Released o r);
-               prog := prog c; trace := trace c |}
-| s_return t o r c : ph c t = Released o r ->
-    cstep c {| shared := shared c; lock := lock c; ph := upd (ph c) t Idle;
-               prog := prog c; trace := trace c ++ [ERes t o r] |}.
+    cstep c {| shared := shared c; wr := wr c; rd := rd c; ph := upd (ph c) t (Between (next c) o 0 l0);
+               prog := upd (prog c) t rest; next := Datatypes.S (next c); trace := trace c ++ [EInv t (next c) o] |}
+| s_enter t n o k l m c : ph c t = Between n o k l -> nth_error (shape o) k = Some m -> can_take c m ->
+    cstep c {| shared := shared c; wr := take_wr c t m; rd := take_rd c t m; ph := upd (ph c) t (Holding n o k l);
+               prog := prog c; next := next c; trace := trace c |}
+| s_read t n o k l c : ph c t = Holding n o k l ->
+    cstep c {| shared := shared c; wr := wr c; rd := rd c; ph := upd (ph c) t (Snapped n o k l (shared c));
+               prog := prog c; next := next c; trace := trace c |}
+| s_write t n o k l snap c : ph c t = Snapped n o k l snap ->
+    cstep c {| shared := fst (sec o k l snap); wr := wr c; rd := rd c;
+               ph := upd (ph c) t (Stored n o k (snd (sec o k l snap)));
+               prog := prog c; next := next c; trace := trace c ++ [EEff t n o (fin o (snd (sec o k l snap)))] |}
+| s_leave t n o k l m c : ph c t = Stored n o k l -> nth_error (shape o) k = Some m ->
+    cstep c {| shared := shared c; wr := give_wr c m; rd := give_rd c t m; ph := upd (ph c) t (Between n o (Datatypes.S k) l);
+               prog := prog c; next := next c; trace := trace c |}
+| s_return t n o k l c : ph c t = Between n o k l -> nth_error (shape o) k = None ->
+    cstep c {| shared := shared c; wr := wr c; rd := rd c; ph := upd (ph c) t Idle;
+               prog := prog c; next := next c; trace := trace c ++ [ERes t n o (fin o l)] |}.
 
 Definition start (progs : nat -> list O) : config :=
-  {| shared := init; lock := None; ph := fun _ => Idle; prog := progs; trace := [] |}.
+  {| shared := init; wr := None; rd := []; ph := fun _ => Idle; prog := progs; next := 0; trace := [] |}.
 
 (* every schedule, every prefix *)
 Inductive reach (progs : nat -> list O) : config -> Prop :=
 | reach_start : reach progs (start progs)
 | reach_step c c' : reach progs c -> cstep c c' -> reach progs c'.
 
-(* ---- reading a trace ---- *)
-(* the calls in the order of their linearization points, with their results *)
-Fixpoint lins (T : list ev) : list (O * R) :=
-  match T with
-  | [] => []
-  | ELin _ o r :: T' => (o, r) :: lins T'
-  | _ :: T' => lins T'
+(* ---- the same steps as a function: thread t takes its next step, if it can.  Used to run
+        concrete schedules by computation; [sched_step_sound] ties it to [cstep]. ---- *)
+Definition can_takeb (c : config) (m : mode) : bool :=
+  match m with
+  | Excl => match wr c, rd c with None, [] => true | _, _ => false end
+  | Shar => match wr c with None => true | _ => false end
+  | Unl => true
   end.
+
+Definition sched_step (t : nat) (c : config) : option config :=
+  match ph c t with
+  | Idle =>
+    match prog c t with
+    | [] => None
+    | o :: rest =>
+      Some {| shared := shared c; wr := wr c; rd := rd c; ph := upd (ph c) t (Between (next c) o 0 l0);
+              prog := upd (prog c) t rest; next := Datatypes.S (next c); trace := trace c ++ [EInv t (next c) o] |}
+    end
+  | Between n o k l =>
+    match nth_error (shape o) k with
+    | Some m =>
+      if can_takeb c m then
+        Some {| shared := shared c; wr := take_wr c t m; rd := take_rd c t m; ph := upd (ph c) t (Holding n o k l);
+                prog := prog c; next := next c; trace := trace c |}
+      else None
+    | None =>
+      Some {| shared := shared c; wr := wr c; rd := rd c; ph := upd (ph c) t Idle;
+              prog := prog c; next := next c; trace := trace c ++ [ERes t n o (fin o l)] |}
+    end
+  | Holding n o k l =>
+    Some {| shared := shared c; wr := wr c; rd := rd c; ph := upd (ph c) t (Snapped n o k l (shared c));
+            prog := prog c; next := next c; trace := trace c |}
+  | Snapped n o k l snap =>
+    Some {| shared := fst (sec o k l snap); wr := wr c; rd := rd c;
+            ph := upd (ph c) t (Stored n o k (snd (sec o k l snap)));
+            prog := prog c; next := next c; trace := trace c ++ [EEff t n o (fin o (snd (sec o k l snap)))] |}
+  | Stored n o k l =>
+    match nth_error (shape o) k with
+    | Some m =>
+      Some {| shared := shared c; wr := give_wr c m; rd := give_rd c t m; ph := upd (ph c) t (Between n o (Datatypes.S k) l);
+              prog := prog c; next := next c; trace := trace c |}
+    | None => None
+    end
+  end.
+
+(* a schedule = the list of threads that take a step, in order; None when one of them cannot *)
+Fixpoint run_sched (sch : list nat) (c : config) : option config :=
+  match sch with
+  | [] => Some c
+  | t :: sch' => match sched_step t c with Some c' => run_sched sch' c' | None => None end
+  end.
+
+Lemma can_takeb_sound c m : can_takeb c m = true -> can_take c m.
+Proof.
+  destruct m; cbn; [|destruct (wr c); [discriminate|reflexivity]|exact (fun _ => I)].
+  destruct (wr c); [discriminate|]. destruct (rd c); [split; reflexivity|discriminate].
+Qed.
+
+Lemma sched_step_sound t c c' : sched_step t c = Some c' -> cstep c c'.
+Proof.
+  unfold sched_step. destruct (ph c t) as [|n o k l|n o k l|n o k l snap|n o k l] eqn:Hp.
+  - destruct (prog c t) as [|o rest] eqn:Hq; [discriminate|]. intro H. injection H as <-. apply s_call; assumption.
+  - destruct (nth_error (shape o) k) as [m|] eqn:Hn.
+    + destruct (can_takeb c m) eqn:Hc; [|discriminate]. intro H. injection H as <-.
+      eapply s_enter; [exact Hp|exact Hn|apply can_takeb_sound; exact Hc].
+    + intro H. injection H as <-. eapply s_return; [exact Hp|exact Hn].
+  - intro H. injection H as <-. apply s_read. exact Hp.
+  - intro H. injection H as <-. apply s_write. exact Hp.
+  - destruct (nth_error (shape o) k) as [m|] eqn:Hn; [|discriminate]. intro H. injection H as <-.
+    eapply s_leave; [exact Hp|exact Hn].
+Qed.
+
+Lemma run_sched_reach progs sch : forall c c', reach progs c -> run_sched sch c = Some c' -> reach progs c'.
+Proof.
+  induction sch as [|t sch IH]; intros c c' HR H; cbn in H.
+  - injection H as <-. exact HR.
+  - destruct (sched_step t c) as [c1|] eqn:Hs; [|discriminate].
+    apply (IH c1 c'); [|exact H]. eapply reach_step; [exact HR|]. apply (sched_step_sound _ _ _ Hs).
+Qed.
+
+(* the configuration a schedule leads to (the starting one if the schedule cannot be run) *)
+Definition run_sched_or (sch : list nat) (c : config) : config :=
+  match run_sched sch c with Some c' => c' | None => c end.
+
+Lemma run_sched_or_reach progs sch c : reach progs c -> reach progs (run_sched_or sch c).
+Proof.
+  intro H. unfold run_sched_or. destruct (run_sched sch c) as [c'|] eqn:E; [|exact H].
+  exact (run_sched_reach progs sch c c' H E).
+Qed.
+
+(* ---- reading a trace ---- *)
+Definition ev_id (e : ev) : nat := match e with EInv _ n _ | EEff _ n _ _ | ERes _ n _ _ => n end.
 
 (* the history proper: invocations and responses *)
-Fixpoint history (T : list ev) : list ev :=
-  match T with
-  | [] => []
-  | ELin _ _ _ :: T' => history T'
-  | e :: T' => e :: history T'
-  end.
+Definition is_hist (e : ev) : bool := match e with EEff _ _ _ _ => false | _ => true end.
+Definition history (T : list ev) : list ev := filter is_hist T.
 
-Fixpoint run_seq (s : S) (L : list (O * R)) : S :=
-  match L with
+Lemma history_in T e : In e (history T) -> In e T.
+Proof. unfold history. intro H. apply filter_In in H. exact (proj1 H). Qed.
+
+(* a call with its result *)
+Record call := mk_call { c_thr : nat; c_id : nat; c_op : O; c_res : R }.
+
+(* the calls in the order of their effects *)
+Definition eff_call (e : ev) : list call := match e with EEff t n o r => [mk_call t n o r] | _ => [] end.
+Definition calls (T : list ev) : list call := flat_map eff_call T.
+Definition op_res (c : call) : O * R := (c_op c, c_res c).
+Definition lins (T : list ev) : list (O * R) := map op_res (calls T).
+
+Fixpoint run_seq (s : S) (l : list (O * R)) : S :=
+  match l with
   | [] => s
-  | (o, _) :: L' => run_seq (fst (seq s o)) L'
+  | (o, _) :: l' => run_seq (fst (seq s o)) l'
   end.
 
 (* a legal sequential run: every call returns what the object returns in the state it finds *)
-Fixpoint legal (s : S) (L : list (O * R)) : Prop :=
-  match L with
+Fixpoint legal (s : S) (l : list (O * R)) : Prop :=
+  match l with
   | [] => True
-  | (o, r) :: L' => snd (seq s o) = r /\ legal (fst (seq s o)) L'
+  | (o, r) :: l' => snd (seq s o) = r /\ legal (fst (seq s o)) l'
   end.
 
-(* one thread's view of the trace *)
-Inductive lev := LInv (o : O) | LLin (o : O) (r : R) | LRes (o : O) (r : R).
+(* x occurs before y *)
+Definition before {A} (x y : A) (l : list A) : Prop := exists l1 l2 l3, l = l1 ++ x :: l2 ++ y :: l3.
 
-Fixpoint proj (t : nat) (T : list ev) : list lev :=
-  match T with
-  | [] => []
-  | EInv u o :: T' => if Nat.eqb u t then LInv o :: proj t T' else proj t T'
-  | ELin u o r :: T' => if Nat.eqb u t then LLin o r :: proj t T' else proj t T'
-  | ERes u o r :: T' => if Nat.eqb u t then LRes o r :: proj t T' else proj t T'
-  end.
-
-(* completed calls: invocation, linearization point, response *)
-Fixpoint triples (ds : list (O * R)) : list lev :=
-  match ds with
-  | [] => []
-  | (o, r) :: ds' => LInv o :: LLin o r :: LRes o r :: triples ds'
-  end.
-
-(* what a thread's current call has contributed so far *)
-Definition pend (p : phase) : list lev :=
-  match p with
-  | Idle => []
-  | Invoked o | Acquired o | Read o _ => [LInv o]
-  | Written o r | Released o r => [LInv o; LLin o r]
-  end.
-
-(* a pending call: nothing, an invocation, or an invocation and its point *)
-Definition pending_shape (p : list lev) : Prop :=
-  p = [] \/ (exists o, p = [LInv o]) \/ (exists o r, p = [LInv o; LLin o r]).
-
-(* linearizability of a history H, linearization-point form *)
+(* linearizability of a history (Herlihy and Wing) *)
 Definition linearizable (H : list ev) : Prop :=
-  exists T, history T = H /\ legal init (lins T) /\
-            forall t, exists ds p, proj t T = triples ds ++ p /\ pending_shape p.
+  exists Sq : list call,
+    (* no call twice *)
+    NoDup (map c_id Sq) /\
+    (* every completed call is there, with the result it returned *)
+    (forall t n o r, In (ERes t n o r) H -> In (mk_call t n o r) Sq) /\
+    (* and otherwise only calls that were invoked (pending ones, with some result) *)
+    (forall t n o r, In (mk_call t n o r) Sq -> In (EInv t n o) H) /\
+    (* the sequence is a legal sequential run of the object *)
+    legal init (map op_res Sq) /\
+    (* real-time order: a call that returned before another was invoked comes first *)
+    (forall t1 n1 o1 r1 t2 n2 o2 r2,
+        before (ERes t1 n1 o1 r1) (EInv t2 n2 o2) H -> In (mk_call t2 n2 o2 r2) Sq ->
+        before (mk_call t1 n1 o1 r1) (mk_call t2 n2 o2 r2) Sq).
 
-(* ---- proof ---- *)
-Definition holding (p : phase) : Prop :=
-  match p with Acquired _ | Read _ _ | Written _ _ => True | _ => False end.
+(* the identifiers of a history name calls: no identifier is invoked twice *)
+Definition inv_id (e : ev) : list nat := match e with EInv _ n _ => [n] | _ => [] end.
+Definition ids_unique (H : list ev) : Prop := NoDup (flat_map inv_id H).
 
-Definition lock_inv (c : config) : Prop :=
-  match lock c with
-  | None => forall t, ~ holding (ph c t)
-  | Some h => holding (ph c h) /\ forall t, t <> h -> ~ holding (ph c t)
-  end.
+(* ---- list lemmas ---- *)
+Lemma flat_map_snoc {A B} (f : A -> list B) l x : flat_map f (l ++ [x]) = flat_map f l ++ f x.
+Proof. induction l as [|a l IH]; cbn; [apply app_nil_r|]. rewrite IH. apply app_assoc. Qed.
 
-Definition inv (c : config) : Prop :=
-  shared c = run_seq init (lins (trace c)) /\
-  legal init (lins (trace c)) /\
-  (forall t, exists ds, proj t (trace c) = triples ds ++ pend (ph c t)) /\
-  lock_inv c /\
-  (forall t o snap, ph c t = Read o snap -> snap = shared c).
+Lemma flat_map_app' {A B} (f : A -> list B) l1 l2 : flat_map f (l1 ++ l2) = flat_map f l1 ++ flat_map f l2.
+Proof. induction l1 as [|a l IH]; cbn; [reflexivity|]. rewrite IH. apply app_assoc. Qed.
 
-Lemma lins_app T1 T2 : lins (T1 ++ T2) = lins T1 ++ lins T2.
-Proof. induction T1 as [|[u o|u o r|u o r] T1 IH]; cbn; [reflexivity|exact IH|rewrite IH; reflexivity|exact IH]. Qed.
-
-Lemma proj_app t T1 T2 : proj t (T1 ++ T2) = proj t T1 ++ proj t T2.
+Lemma NoDup_snoc {A} (l : list A) x : NoDup l -> ~ In x l -> NoDup (l ++ [x]).
 Proof.
-  induction T1 as [|[u o|u o r|u o r] T1 IH]; cbn; [reflexivity| | |]; destruct (Nat.eqb u t); cbn; rewrite IH; reflexivity.
+  induction l as [|a l IH]; cbn; intros ND NI.
+  - constructor; [exact (fun f => f)|constructor].
+  - inversion ND as [|a' l' Na ND']; subst. constructor.
+    + intro Hin. apply in_app_or in Hin. destruct Hin as [Hin|[->|[]]]; [exact (Na Hin)|]. apply NI. left. reflexivity.
+    + apply IH; [exact ND'|]. intro Hx. apply NI. right. exact Hx.
 Qed.
 
-Lemma run_seq_snoc s L o r : run_seq s (L ++ [(o, r)]) = fst (seq (run_seq s L) o).
-Proof. revert s. induction L as [|[o' r'] L IH]; intros s; cbn; [reflexivity|apply IH]. Qed.
-
-Lemma legal_snoc s L o r : legal s L -> snd (seq (run_seq s L) o) = r -> legal s (L ++ [(o, r)]).
+Lemma split_snoc {A} (T : list A) x P e Q : T ++ [x] = P ++ e :: Q ->
+  (exists Q', Q = Q' ++ [x] /\ T = P ++ e :: Q') \/ (P = T /\ e = x /\ Q = []).
 Proof.
-  revert s. induction L as [|[o' r'] L IH]; intros s; cbn.
-  - intros _ H. split; [exact H|exact I].
-  - intros [H1 H2] H3. split; [exact H1|]. apply IH; assumption.
+  assert (HQ : Q = [] \/ exists Q' y, Q = Q' ++ [y]).
+  { destruct Q as [|q Q]; [left; reflexivity|right].
+    destruct (exists_last (l := q :: Q)) as (Q' & y & E); [discriminate|]. exists Q', y. exact E. }
+  destruct HQ as [->|(Q' & y & ->)]; intro H.
+  - right. change (P ++ [e]) with (P ++ [e]) in H. apply app_inj_tail in H. destruct H as [-> ->]. auto.
+  - left. rewrite app_comm_cons, app_assoc in H. apply app_inj_tail in H. destruct H as [-> ->].
+    exists Q'. split; reflexivity.
 Qed.
 
-Lemma triples_snoc ds o r : triples ds ++ [LInv o; LLin o r; LRes o r] = triples (ds ++ [(o, r)]).
-Proof. induction ds as [|[o' r'] ds IH]; cbn; [reflexivity|]. rewrite IH. reflexivity. Qed.
+Lemma before_filter {A} (f : A -> bool) x y l : before x y (filter f l) -> before x y l.
+Proof.
+  intros (l1 & l2 & l3 & H). revert l1 H. induction l as [|a l IH]; intros l1 H; cbn in H.
+  - destruct l1; discriminate.
+  - destruct (f a) eqn:Hf.
+    + destruct l1 as [|b l1]; cbn in H.
+      * injection H as -> H.
+        (* x = a; y occurs in filter f l *)
+        assert (Hy : In y l).
+        { assert (Hin : In y (filter f l)) by (rewrite H; apply in_or_app; right; left; reflexivity).
+          apply filter_In in Hin. exact (proj1 Hin). }
+        apply in_split in Hy. destruct Hy as (m1 & m2 & ->). exists [], m1, m2. reflexivity.
+      * injection H as -> H. destruct (IH l1 H) as (p1 & p2 & p3 & ->). exists (b :: p1), p2, p3. reflexivity.
+    + destruct (IH l1 H) as (p1 & p2 & p3 & ->). exists (a :: p1), p2, p3. reflexivity.
+Qed.
 
 Lemma upd_same {A} (f : nat -> A) t x : upd f t x t = x.
 Proof. unfold upd. rewrite Nat.eqb_refl. reflexivity. Qed.
@@ -195,133 +314,491 @@ Proof. unfold upd. rewrite Nat.eqb_refl. reflexivity. Qed.
 Lemma upd_other {A} (f : nat -> A) t u x : u <> t -> upd f t x u = f u.
 Proof. intro H. unfold upd. destruct (Nat.eqb_spec u t); [contradiction|reflexivity]. Qed.
 
-Hypothesis all_locked : forall o, locked o = true.
+Lemma calls_snoc T e : calls (T ++ [e]) = calls T ++ eff_call e.
+Proof. unfold calls. rewrite flat_map_snoc. reflexivity. Qed.
+
+Lemma in_calls t n o r T : In (mk_call t n o r) (calls T) <-> In (EEff t n o r) T.
+Proof.
+  unfold calls. rewrite in_flat_map. split.
+  - intros (e & He & Hc). destruct e; cbn in Hc; try contradiction. destruct Hc as [Hc|[]]. injection Hc as -> -> -> ->. exact He.
+  - intro H. exists (EEff t n o r). split; [exact H|left; reflexivity].
+Qed.
+
+Lemma run_seq_snoc s l o r : run_seq s (l ++ [(o, r)]) = fst (seq (run_seq s l) o).
+Proof. revert s. induction l as [|[o' r'] l IH]; intros s; cbn; [reflexivity|apply IH]. Qed.
+
+Lemma legal_snoc s l o r : legal s l -> snd (seq (run_seq s l) o) = r -> legal s (l ++ [(o, r)]).
+Proof.
+  revert s. induction l as [|[o' r'] l IH]; intros s; cbn.
+  - intros _ H. split; [exact H|exact I].
+  - intros [H1 H2] H3. split; [exact H1|]. apply IH; assumption.
+Qed.
+
+(* ---- the invariant ---- *)
+(* what must hold of the trace before an event for the event to be in order *)
+Definition ev_ok (P : list ev) (e : ev) : Prop :=
+  match e with
+  | EInv _ n _ => forall e', In e' P -> ev_id e' < n           (* a fresh identifier *)
+  | EEff t n o _ => In (EInv t n o) P                          (* an effect of an invoked call *)
+  | ERes t n o r => In (EEff t n o r) P                        (* the response follows the effect that fixed it *)
+  end.
+
+Definition split_ok (T : list ev) : Prop := forall P e Q, T = P ++ e :: Q -> ev_ok P e.
+
+Lemma split_ok_snoc T x : split_ok T -> ev_ok T x -> split_ok (T ++ [x]).
+Proof.
+  intros HT Hx P e Q HE. destruct (split_snoc _ _ _ _ _ HE) as [(Q' & _ & HT')|(-> & -> & _)].
+  - exact (HT _ _ _ HT').
+  - exact Hx.
+Qed.
+
+Definition ph_call (p : phase) : option (nat * O) :=
+  match p with
+  | Idle => None
+  | Between n o _ _ | Holding n o _ _ | Snapped n o _ _ _ | Stored n o _ _ => Some (n, o)
+  end.
+
+(* the local state of a call whose section has written *)
+Definition ph_post (p : phase) : option L :=
+  match p with
+  | Stored _ _ _ l | Between _ _ (Datatypes.S _) l => Some l
+  | _ => None
+  end.
+
+(* the mode in which a thread holds the mutex *)
+Definition hmode (p : phase) : option mode :=
+  match p with
+  | Holding _ o k _ | Snapped _ o k _ _ | Stored _ o k _ => nth_error (shape o) k
+  | _ => None
+  end.
+
+Definition phase_ok (p : phase) : Prop :=
+  match p with
+  | Idle => True
+  | Between _ _ k l => (k = 0 /\ l = l0) \/ k = 1
+  | Holding _ _ k l | Snapped _ _ k l _ => k = 0 /\ l = l0
+  | Stored _ _ k _ => k = 0
+  end.
+
+Record inv (c : config) : Prop := {
+  i_phase : forall t, phase_ok (ph c t);
+  (* identifiers and the order of events *)
+  i_idlt : forall e, In e (trace c) -> ev_id e < next c;
+  i_phlt : forall t n o, ph_call (ph c t) = Some (n, o) -> n < next c;
+  i_phne : forall t u n o n' o', t <> u -> ph_call (ph c t) = Some (n, o) -> ph_call (ph c u) = Some (n', o') -> n <> n';
+  i_split : split_ok (trace c);
+  i_nodup : NoDup (map c_id (calls (trace c)));
+  i_invoked : forall t n o, ph_call (ph c t) = Some (n, o) -> In (EInv t n o) (trace c);
+  i_pre : forall t n o, ph_call (ph c t) = Some (n, o) -> ph_post (ph c t) = None -> ~ In n (map c_id (calls (trace c)));
+  i_post : forall t n o l, ph_call (ph c t) = Some (n, o) -> ph_post (ph c t) = Some l -> In (EEff t n o (fin o l)) (trace c);
+  (* the mutex *)
+  i_wr : forall t, wr c = Some t <-> hmode (ph c t) = Some Excl;
+  i_rd : forall t, In t (rd c) <-> hmode (ph c t) = Some Shar;
+  i_wrrd : wr c <> None -> rd c = [];
+  (* the state *)
+  i_snap : forall t n o k l snap, ph c t = Snapped n o k l snap -> snap = shared c;
+  i_shared : shared c = run_seq init (lins (trace c));
+  i_legal : legal init (lins (trace c))
+}.
+
+(* every operation is one critical section: exclusive, or shared and leaving the state alone *)
+Hypothesis atomic : forall o,
+  shape o = [Excl] \/ (shape o = [Shar] /\ forall s, fst (sec o 0 l0 s) = s).
+
+Lemma shape_nth o k m : nth_error (shape o) k = Some m -> k = 0 /\ (m = Excl \/ m = Shar) /\ shape o = [m].
+Proof.
+  destruct (atomic o) as [H|[H _]]; rewrite H; destruct k as [|[|k]]; cbn; intro E; try discriminate;
+    injection E as <-; auto.
+Qed.
+
+Lemma shape_none o k : nth_error (shape o) k = None -> k <> 0.
+Proof. destruct (atomic o) as [H|[H _]]; rewrite H; destruct k; cbn; intro E; [discriminate|auto|discriminate|auto]. Qed.
+
+Lemma seq_single o m s : shape o = [m] -> seq s o = (fst (sec o 0 l0 s), fin o (snd (sec o 0 l0 s))).
+Proof. intro H. unfold seq. rewrite H. reflexivity. Qed.
 
 Lemma inv_start progs : inv (start progs).
 Proof.
-  unfold inv, start, lock_inv; cbn. split; [reflexivity|]. split; [exact I|].
-  split; [intro t; exists []; reflexivity|]. split; [intros t H; exact H|]. intros t o snap H. discriminate.
+  constructor; cbn; try (intros; discriminate); try (intros; contradiction); auto.
+  - intros P e Q H. destruct P; discriminate.
+  - constructor.
+  - intro t. split; discriminate.
+  - intro t. split; [contradiction|discriminate].
 Qed.
 
-(* the lock holder is the only thread in a holding phase *)
-Lemma holder_is c t : lock_inv c -> holding (ph c t) -> lock c = Some t.
-Proof.
-  unfold lock_inv. destruct (lock c) as [h|].
-  - intros [Hh Ho] Ht. destruct (Nat.eq_dec t h) as [->|N]; [reflexivity|]. exfalso. exact (Ho t N Ht).
-  - intros Hn Ht. exfalso. exact (Hn t Ht).
-Qed.
+(* phases of the other threads do not change *)
+Ltac other_thread u t N := rewrite (upd_other _ _ _ _ N) in *.
 
-Lemma proj_other t u e T : (match e with EInv x _ | ELin x _ _ | ERes x _ _ => x end) = u -> t <> u ->
-  proj t (T ++ [e]) = proj t T.
+Lemma lins_snoc_eff T t n o r : lins (T ++ [EEff t n o r]) = lins T ++ [(o, r)].
+Proof. unfold lins. rewrite calls_snoc. cbn. rewrite map_app. reflexivity. Qed.
+
+Lemma lins_snoc_inv T t n o : lins (T ++ [EInv t n o]) = lins T.
+Proof. unfold lins. rewrite calls_snoc. cbn. rewrite app_nil_r. reflexivity. Qed.
+
+Lemma lins_snoc_res T t n o r : lins (T ++ [ERes t n o r]) = lins T.
+Proof. unfold lins. rewrite calls_snoc. cbn. rewrite app_nil_r. reflexivity. Qed.
+
+Lemma calls_snoc_inv T t n o : calls (T ++ [EInv t n o]) = calls T.
+Proof. rewrite calls_snoc. cbn. apply app_nil_r. Qed.
+
+Lemma calls_snoc_res T t n o r : calls (T ++ [ERes t n o r]) = calls T.
+Proof. rewrite calls_snoc. cbn. apply app_nil_r. Qed.
+
+Lemma calls_id_lt c : inv c -> forall x, In x (calls (trace c)) -> c_id x < next c.
 Proof.
-  intros He N. rewrite proj_app. destruct e; cbn in *; subst; destruct (Nat.eqb_spec u t); try congruence; apply app_nil_r.
+  intros I [t n o r] Hx. apply in_calls in Hx. exact (i_idlt c I _ Hx).
 Qed.
 
 Lemma inv_step c c' : inv c -> cstep c c' -> inv c'.
 Proof.
-  intros (Hs & Hl & Hp & Hk & Hr) St.
-  destruct St as [t o rest c Hph Hpr|t o c Hph Hlo Hfree|t o c Hph Hlo|t o c Hph Hm|t o snap c Hph Hm|t o r c Hph|t o r c Hph];
-    unfold inv; cbn [shared lock ph prog trace].
+  intros I St.
+  destruct St as [t o rest c Hph Hpr|t n o k l m c Hph Hn Hc|t n o k l c Hph|t n o k l snap c Hph|t n o k l m c Hph Hn|t n o k l c Hph Hn].
   - (* call *)
-    rewrite lins_app. cbn [lins]. rewrite app_nil_r.
-    split; [exact Hs|]. split; [exact Hl|]. split; [|split].
+    constructor; cbn [shared wr rd ph prog next trace].
+    + intro u. destruct (Nat.eq_dec u t) as [->|N]; [rewrite upd_same; cbn; auto|rewrite (upd_other _ _ _ _ N); apply (i_phase c I)].
+    + intros e He. apply in_app_or in He. destruct He as [He|[<-|[]]]; [pose proof (i_idlt c I e He); lia|cbn; lia].
+    + intros u n o'. destruct (Nat.eq_dec u t) as [->|N].
+      * rewrite upd_same. cbn. intro E. injection E as <- _. lia.
+      * rewrite (upd_other _ _ _ _ N). intro E. pose proof (i_phlt c I u n o' E). lia.
+    + intros u v n o1 n' o2 Nuv. destruct (Nat.eq_dec u t) as [->|Nu]; destruct (Nat.eq_dec v t) as [->|Nv]; try congruence.
+      * rewrite upd_same, (upd_other _ _ _ _ Nv). cbn. intros E1 E2. injection E1 as <- _. pose proof (i_phlt c I v n' o2 E2). lia.
+      * rewrite upd_same, (upd_other _ _ _ _ Nu). cbn. intros E1 E2. injection E2 as <- _. pose proof (i_phlt c I u n o1 E1). lia.
+      * rewrite (upd_other _ _ _ _ Nu), (upd_other _ _ _ _ Nv). apply (i_phne c I); exact Nuv.
+    + apply split_ok_snoc; [apply (i_split c I)|]. cbn. intros e' He'. exact (i_idlt c I e' He').
+    + rewrite calls_snoc_inv. apply (i_nodup c I).
+    + intros u n o'. destruct (Nat.eq_dec u t) as [->|N].
+      * rewrite upd_same. cbn. intro E. injection E as <- <-. apply in_or_app. right. left. reflexivity.
+      * rewrite (upd_other _ _ _ _ N). intro E. apply in_or_app. left. exact (i_invoked c I u n o' E).
+    + intros u n o'. rewrite calls_snoc_inv. destruct (Nat.eq_dec u t) as [->|N].
+      * rewrite upd_same. cbn. intros E _ Hin. injection E as <- _. apply in_map_iff in Hin. destruct Hin as (x & Hx1 & Hx2).
+        pose proof (calls_id_lt c I x Hx2). lia.
+      * rewrite (upd_other _ _ _ _ N). apply (i_pre c I).
+    + intros u n o' l'. destruct (Nat.eq_dec u t) as [->|N].
+      * rewrite upd_same. cbn. discriminate.
+      * rewrite (upd_other _ _ _ _ N). intros E1 E2. apply in_or_app. left. exact (i_post c I u n o' l' E1 E2).
     + intro u. destruct (Nat.eq_dec u t) as [->|N].
-      * rewrite upd_same. destruct (Hp t) as [ds Hd]. exists ds. rewrite proj_app, Hd, Hph. cbn. rewrite Nat.eqb_refl. rewrite app_nil_r. reflexivity.
-      * rewrite (upd_other _ _ _ _ N). destruct (Hp u) as [ds Hd]. exists ds. rewrite (proj_other u t); [exact Hd|reflexivity|exact N].
-    + unfold lock_inv in *. cbn [lock ph]. destruct (lock c) as [h|].
-      * destruct Hk as [Hh Ho]. split.
-        -- destruct (Nat.eq_dec h t) as [->|N]; [rewrite Hph in Hh; destruct Hh|rewrite (upd_other _ _ _ _ N); exact Hh].
-        -- intros u Nu. destruct (Nat.eq_dec u t) as [->|N]; [rewrite upd_same; exact (fun x => x)|rewrite (upd_other _ _ _ _ N); exact (Ho u Nu)].
-      * intro u. destruct (Nat.eq_dec u t) as [->|N]; [rewrite upd_same; exact (fun x => x)|rewrite (upd_other _ _ _ _ N); exact (Hk u)].
-    + intros u o' snap H. destruct (Nat.eq_dec u t) as [->|N]; [rewrite upd_same in H; discriminate|].
-      rewrite (upd_other _ _ _ _ N) in H. exact (Hr _ _ _ H).
-  - (* acquire *)
-    split; [exact Hs|]. split; [exact Hl|]. split; [|split].
+      * rewrite upd_same. cbn. split; [|discriminate]. intro E. apply (i_wr c I) in E. rewrite Hph in E. discriminate.
+      * rewrite (upd_other _ _ _ _ N). apply (i_wr c I).
     + intro u. destruct (Nat.eq_dec u t) as [->|N].
-      * rewrite upd_same. destruct (Hp t) as [ds Hd]. exists ds. rewrite Hd, Hph. reflexivity.
-      * rewrite (upd_other _ _ _ _ N). exact (Hp u).
-    + unfold lock_inv in *. cbn [lock ph]. rewrite Hfree in Hk. split; [rewrite upd_same; exact I|].
-      intros u N. rewrite (upd_other _ _ _ _ N). exact (Hk u).
-    + intros u o' snap H. destruct (Nat.eq_dec u t) as [->|N]; [rewrite upd_same in H; discriminate|].
-      rewrite (upd_other _ _ _ _ N) in H. exact (Hr _ _ _ H).
-  - (* a method that is not lock-wrapped: excluded by the hypothesis *)
-    rewrite all_locked in Hlo. discriminate.
+      * rewrite upd_same. cbn. split; [|discriminate]. intro E. apply (i_rd c I) in E. rewrite Hph in E. discriminate.
+      * rewrite (upd_other _ _ _ _ N). apply (i_rd c I).
+    + apply (i_wrrd c I).
+    + intros u n o' k l snap. destruct (Nat.eq_dec u t) as [->|N]; [rewrite upd_same; discriminate|].
+      rewrite (upd_other _ _ _ _ N). apply (i_snap c I).
+    + rewrite lins_snoc_inv. apply (i_shared c I).
+    + rewrite lins_snoc_inv. apply (i_legal c I).
+  - (* enter *)
+    destruct (shape_nth _ _ _ Hn) as (-> & Hm & Hsh).
+    assert (Hl : l = l0).
+    { pose proof (i_phase c I t) as P. rewrite Hph in P. cbn in P. destruct P as [[_ P]|P]; [exact P|discriminate]. }
+    subst l.
+    constructor; cbn [shared wr rd ph prog next trace].
+    + intro u. destruct (Nat.eq_dec u t) as [->|N]; [rewrite upd_same; cbn; auto|rewrite (upd_other _ _ _ _ N); apply (i_phase c I)].
+    + apply (i_idlt c I).
+    + intros u n1 o1. destruct (Nat.eq_dec u t) as [->|N].
+      * rewrite upd_same. cbn. intro E. apply (i_phlt c I t n1 o1). rewrite Hph. exact E.
+      * rewrite (upd_other _ _ _ _ N). apply (i_phlt c I).
+    + intros u v n1 o1 n2 o2 Nuv. destruct (Nat.eq_dec u t) as [->|Nu]; destruct (Nat.eq_dec v t) as [->|Nv]; try congruence.
+      * rewrite upd_same, (upd_other _ _ _ _ Nv). cbn. intros E1 E2. apply (i_phne c I t v n1 o1 n2 o2 Nuv); [rewrite Hph; exact E1|exact E2].
+      * rewrite upd_same, (upd_other _ _ _ _ Nu). cbn. intros E1 E2. apply (i_phne c I u t n1 o1 n2 o2 Nuv); [exact E1|rewrite Hph; exact E2].
+      * rewrite (upd_other _ _ _ _ Nu), (upd_other _ _ _ _ Nv). apply (i_phne c I); exact Nuv.
+    + apply (i_split c I).
+    + apply (i_nodup c I).
+    + intros u n1 o1. destruct (Nat.eq_dec u t) as [->|N].
+      * rewrite upd_same. cbn. intro E. apply (i_invoked c I). rewrite Hph. exact E.
+      * rewrite (upd_other _ _ _ _ N). apply (i_invoked c I).
+    + intros u n1 o1. destruct (Nat.eq_dec u t) as [->|N].
+      * rewrite upd_same. cbn. intros E _. apply (i_pre c I t n1 o1); rewrite Hph; [exact E|reflexivity].
+      * rewrite (upd_other _ _ _ _ N). apply (i_pre c I).
+    + intros u n1 o1 l1. destruct (Nat.eq_dec u t) as [->|N].
+      * rewrite upd_same. cbn. discriminate.
+      * rewrite (upd_other _ _ _ _ N). apply (i_post c I).
+    + intro u. destruct (Nat.eq_dec u t) as [->|N].
+      * rewrite upd_same. cbn [hmode]. rewrite Hn. destruct Hm as [-> | ->]; cbn.
+        -- split; reflexivity.
+        -- cbn in Hc. rewrite Hc. split; discriminate.
+      * rewrite (upd_other _ _ _ _ N). destruct Hm as [-> | ->]; cbn.
+        -- cbn in Hc. destruct Hc as [Hw _]. split.
+           ++ intro E. injection E as E. congruence.
+           ++ intro E. apply (i_wr c I) in E. congruence.
+        -- apply (i_wr c I).
+    + intro u. destruct (Nat.eq_dec u t) as [->|N].
+      * rewrite upd_same. cbn [hmode]. rewrite Hn. destruct Hm as [-> | ->]; cbn.
+        -- cbn in Hc. destruct Hc as [_ Hr]. rewrite Hr. split; [contradiction|discriminate].
+        -- split; [reflexivity|]. intros _. left. reflexivity.
+      * rewrite (upd_other _ _ _ _ N). destruct Hm as [-> | ->]; cbn.
+        -- apply (i_rd c I).
+        -- split.
+           ++ intros [E|E]; [congruence|apply (i_rd c I); exact E].
+           ++ intro E. right. apply (i_rd c I). exact E.
+    + destruct Hm as [-> | ->]; cbn.
+      * intros _. cbn in Hc. exact (proj2 Hc).
+      * cbn in Hc. intro E. contradiction.
+    + intros u n1 o1 k1 l1 snap. destruct (Nat.eq_dec u t) as [->|N]; [rewrite upd_same; discriminate|].
+      rewrite (upd_other _ _ _ _ N). apply (i_snap c I).
+    + apply (i_shared c I).
+    + apply (i_legal c I).
   - (* read *)
-    assert (Hlk : lock c = Some t) by (destruct Hm as [H|H]; [rewrite all_locked in H; discriminate|exact H]).
-    split; [exact Hs|]. split; [exact Hl|]. split; [|split].
+    pose proof (i_phase c I t) as P. rewrite Hph in P. cbn in P. destruct P as [-> ->].
+    constructor; cbn [shared wr rd ph prog next trace].
+    + intro u. destruct (Nat.eq_dec u t) as [->|N]; [rewrite upd_same; cbn; auto|rewrite (upd_other _ _ _ _ N); apply (i_phase c I)].
+    + apply (i_idlt c I).
+    + intros u n1 o1. destruct (Nat.eq_dec u t) as [->|N].
+      * rewrite upd_same. cbn. intro E. apply (i_phlt c I t n1 o1). rewrite Hph. exact E.
+      * rewrite (upd_other _ _ _ _ N). apply (i_phlt c I).
+    + intros u v n1 o1 n2 o2 Nuv. destruct (Nat.eq_dec u t) as [->|Nu]; destruct (Nat.eq_dec v t) as [->|Nv]; try congruence.
+      * rewrite upd_same, (upd_other _ _ _ _ Nv). cbn. intros E1 E2. apply (i_phne c I t v n1 o1 n2 o2 Nuv); [rewrite Hph; exact E1|exact E2].
+      * rewrite upd_same, (upd_other _ _ _ _ Nu). cbn. intros E1 E2. apply (i_phne c I u t n1 o1 n2 o2 Nuv); [exact E1|rewrite Hph; exact E2].
+      * rewrite (upd_other _ _ _ _ Nu), (upd_other _ _ _ _ Nv). apply (i_phne c I); exact Nuv.
+    + apply (i_split c I).
+    + apply (i_nodup c I).
+    + intros u n1 o1. destruct (Nat.eq_dec u t) as [->|N].
+      * rewrite upd_same. cbn. intro E. apply (i_invoked c I). rewrite Hph. exact E.
+      * rewrite (upd_other _ _ _ _ N). apply (i_invoked c I).
+    + intros u n1 o1. destruct (Nat.eq_dec u t) as [->|N].
+      * rewrite upd_same. cbn. intros E _. apply (i_pre c I t n1 o1); rewrite Hph; [exact E|reflexivity].
+      * rewrite (upd_other _ _ _ _ N). apply (i_pre c I).
+    + intros u n1 o1 l1. destruct (Nat.eq_dec u t) as [->|N].
+      * rewrite upd_same. cbn. discriminate.
+      * rewrite (upd_other _ _ _ _ N). apply (i_post c I).
     + intro u. destruct (Nat.eq_dec u t) as [->|N].
-      * rewrite upd_same. destruct (Hp t) as [ds Hd]. exists ds. rewrite Hd, Hph. reflexivity.
-      * rewrite (upd_other _ _ _ _ N). exact (Hp u).
-    + unfold lock_inv in *. cbn [lock ph]. rewrite Hlk in *. destruct Hk as [Hh Ho]. split; [rewrite upd_same; exact I|].
-      intros u N. rewrite (upd_other _ _ _ _ N). exact (Ho u N).
-    + intros u o' snap H. destruct (Nat.eq_dec u t) as [->|N].
-      * rewrite upd_same in H. injection H as _ <-. reflexivity.
-      * rewrite (upd_other _ _ _ _ N) in H. exact (Hr _ _ _ H).
-  - (* write: the linearization point *)
-    assert (Hlk : lock c = Some t) by (destruct Hm as [H|H]; [rewrite all_locked in H; discriminate|exact H]).
-    assert (Hsn : snap = shared c) by exact (Hr _ _ _ Hph). subst snap.
-    rewrite lins_app. cbn [lins].
-    split; [rewrite run_seq_snoc, <- Hs; reflexivity|].
-    split; [apply legal_snoc; [exact Hl|rewrite <- Hs; reflexivity]|].
-    split; [|split].
+      * rewrite upd_same. cbn [hmode]. pose proof (i_wr c I t) as W. rewrite Hph in W. exact W.
+      * rewrite (upd_other _ _ _ _ N). apply (i_wr c I).
     + intro u. destruct (Nat.eq_dec u t) as [->|N].
-      * rewrite upd_same. destruct (Hp t) as [ds Hd]. exists ds. rewrite proj_app, Hd, Hph. cbn. rewrite Nat.eqb_refl.
-        rewrite <- app_assoc. reflexivity.
-      * rewrite (upd_other _ _ _ _ N). destruct (Hp u) as [ds Hd]. exists ds. rewrite (proj_other u t); [exact Hd|reflexivity|exact N].
-    + unfold lock_inv in *. cbn [lock ph]. rewrite Hlk in *. destruct Hk as [Hh Ho]. split; [rewrite upd_same; exact I|].
-      intros u N. rewrite (upd_other _ _ _ _ N). exact (Ho u N).
-    + intros u o' snap H. destruct (Nat.eq_dec u t) as [->|N]; [rewrite upd_same in H; discriminate|].
-      rewrite (upd_other _ _ _ _ N) in H. exfalso.
-      unfold lock_inv in Hk. rewrite Hlk in Hk. destruct Hk as [_ Ho]. apply (Ho u N). rewrite H. exact I.
-  - (* release *)
-    rewrite all_locked.
-    assert (Hlk : lock c = Some t) by (apply holder_is; [exact Hk|rewrite Hph; exact I]).
-    split; [exact Hs|]. split; [exact Hl|]. split; [|split].
+      * rewrite upd_same. cbn [hmode]. pose proof (i_rd c I t) as W. rewrite Hph in W. exact W.
+      * rewrite (upd_other _ _ _ _ N). apply (i_rd c I).
+    + apply (i_wrrd c I).
+    + intros u n1 o1 k1 l1 snap. destruct (Nat.eq_dec u t) as [->|N].
+      * rewrite upd_same. intro E. injection E as _ _ _ _ <-. reflexivity.
+      * rewrite (upd_other _ _ _ _ N). apply (i_snap c I).
+    + apply (i_shared c I).
+    + apply (i_legal c I).
+  - (* write *)
+    pose proof (i_phase c I t) as P. rewrite Hph in P. cbn in P. destruct P as [-> ->].
+    assert (Hsn : snap = shared c) by exact (i_snap c I _ _ _ _ _ _ Hph). subst snap.
+    assert (Hmode : exists m, nth_error (shape o) 0 = Some m /\ shape o = [m]).
+    { destruct (atomic o) as [H|[H _]]; rewrite H; cbn; eauto. }
+    destruct Hmode as (m & Hn & Hsh).
+    constructor; cbn [shared wr rd ph prog next trace].
+    + intro u. destruct (Nat.eq_dec u t) as [->|N]; [rewrite upd_same; cbn; auto|rewrite (upd_other _ _ _ _ N); apply (i_phase c I)].
+    + intros e He. apply in_app_or in He. destruct He as [He|[<-|[]]]; [exact (i_idlt c I e He)|].
+      cbn. apply (i_phlt c I t n o). rewrite Hph. reflexivity.
+    + intros u n1 o1. destruct (Nat.eq_dec u t) as [->|N].
+      * rewrite upd_same. cbn. intro E. apply (i_phlt c I t n1 o1). rewrite Hph. exact E.
+      * rewrite (upd_other _ _ _ _ N). apply (i_phlt c I).
+    + intros u v n1 o1 n2 o2 Nuv. destruct (Nat.eq_dec u t) as [->|Nu]; destruct (Nat.eq_dec v t) as [->|Nv]; try congruence.
+      * rewrite upd_same, (upd_other _ _ _ _ Nv). cbn. intros E1 E2. apply (i_phne c I t v n1 o1 n2 o2 Nuv); [rewrite Hph; exact E1|exact E2].
+      * rewrite upd_same, (upd_other _ _ _ _ Nu). cbn. intros E1 E2. apply (i_phne c I u t n1 o1 n2 o2 Nuv); [exact E1|rewrite Hph; exact E2].
+      * rewrite (upd_other _ _ _ _ Nu), (upd_other _ _ _ _ Nv). apply (i_phne c I); exact Nuv.
+    + apply split_ok_snoc; [apply (i_split c I)|]. cbn. apply (i_invoked c I). rewrite Hph. reflexivity.
+    + rewrite calls_snoc. cbn [eff_call]. rewrite map_app. cbn [map c_id]. apply NoDup_snoc; [apply (i_nodup c I)|].
+      apply (i_pre c I t n o); rewrite Hph; reflexivity.
+    + intros u n1 o1. destruct (Nat.eq_dec u t) as [->|N].
+      * rewrite upd_same. cbn. intro E. apply in_or_app. left. apply (i_invoked c I). rewrite Hph. exact E.
+      * rewrite (upd_other _ _ _ _ N). intro E. apply in_or_app. left. exact (i_invoked c I u n1 o1 E).
+    + intros u n1 o1. destruct (Nat.eq_dec u t) as [->|N].
+      * rewrite upd_same. cbn. discriminate.
+      * rewrite (upd_other _ _ _ _ N). intros E1 E2. rewrite calls_snoc. cbn [eff_call]. rewrite map_app. cbn [map c_id].
+        intro Hin. apply in_app_or in Hin. destruct Hin as [Hin|[Hin|[]]].
+        -- exact (i_pre c I u n1 o1 E1 E2 Hin).
+        -- apply (i_phne c I t u n o n1 o1); [congruence|rewrite Hph; reflexivity|exact E1|exact Hin].
+    + intros u n1 o1 l1. destruct (Nat.eq_dec u t) as [->|N].
+      * rewrite upd_same. cbn. intros E1 E2. injection E1 as <- <-. injection E2 as <-. apply in_or_app. right. left. reflexivity.
+      * rewrite (upd_other _ _ _ _ N). intros E1 E2. apply in_or_app. left. exact (i_post c I u n1 o1 l1 E1 E2).
     + intro u. destruct (Nat.eq_dec u t) as [->|N].
-      * rewrite upd_same. destruct (Hp t) as [ds Hd]. exists ds. rewrite Hd, Hph. reflexivity.
-      * rewrite (upd_other _ _ _ _ N). exact (Hp u).
-    + unfold lock_inv in *. cbn [lock ph]. rewrite Hlk in Hk. destruct Hk as [_ Ho].
-      intro u. destruct (Nat.eq_dec u t) as [->|N]; [rewrite upd_same; exact (fun x => x)|rewrite (upd_other _ _ _ _ N); exact (Ho u N)].
-    + intros u o' snap H. destruct (Nat.eq_dec u t) as [->|N]; [rewrite upd_same in H; discriminate|].
-      rewrite (upd_other _ _ _ _ N) in H. exact (Hr _ _ _ H).
+      * rewrite upd_same. cbn [hmode]. pose proof (i_wr c I t) as W. rewrite Hph in W. exact W.
+      * rewrite (upd_other _ _ _ _ N). apply (i_wr c I).
+    + intro u. destruct (Nat.eq_dec u t) as [->|N].
+      * rewrite upd_same. cbn [hmode]. pose proof (i_rd c I t) as W. rewrite Hph in W. exact W.
+      * rewrite (upd_other _ _ _ _ N). apply (i_rd c I).
+    + apply (i_wrrd c I).
+    + (* the snapshots of the other threads *)
+      intros u n1 o1 k1 l1 snap. destruct (Nat.eq_dec u t) as [->|N]; [rewrite upd_same; discriminate|].
+      rewrite (upd_other _ _ _ _ N). intro Hu. pose proof (i_snap c I _ _ _ _ _ _ Hu) as Hs. subst snap.
+      destruct (atomic o) as [Hx|[Hx Hro]].
+      * (* t is the exclusive holder: nobody else is inside a section *)
+        exfalso. assert (Wt : wr c = Some t).
+        { apply (i_wr c I). rewrite Hph. cbn. rewrite Hx. reflexivity. }
+        pose proof (i_phase c I u) as Pu. rewrite Hu in Pu. cbn in Pu. destruct Pu as [-> _].
+        destruct (atomic o1) as [Hy|[Hy _]].
+        -- assert (Wu : wr c = Some u) by (apply (i_wr c I); rewrite Hu; cbn; rewrite Hy; reflexivity). congruence.
+        -- assert (Ru : In u (rd c)) by (apply (i_rd c I); rewrite Hu; cbn; rewrite Hy; reflexivity).
+           rewrite (i_wrrd c I) in Ru; [contradiction|congruence].
+      * (* a shared section leaves the state as it is *)
+        symmetry. apply Hro.
+    + rewrite lins_snoc_eff, run_seq_snoc, <- (i_shared c I), (seq_single o m _ Hsh). reflexivity.
+    + rewrite lins_snoc_eff. apply legal_snoc; [apply (i_legal c I)|].
+      rewrite <- (i_shared c I), (seq_single o m _ Hsh). reflexivity.
+  - (* leave *)
+    destruct (shape_nth _ _ _ Hn) as (-> & Hm & Hsh).
+    constructor; cbn [shared wr rd ph prog next trace].
+    + intro u. destruct (Nat.eq_dec u t) as [->|N]; [rewrite upd_same; cbn; auto|rewrite (upd_other _ _ _ _ N); apply (i_phase c I)].
+    + apply (i_idlt c I).
+    + intros u n1 o1. destruct (Nat.eq_dec u t) as [->|N].
+      * rewrite upd_same. cbn. intro E. apply (i_phlt c I t n1 o1). rewrite Hph. exact E.
+      * rewrite (upd_other _ _ _ _ N). apply (i_phlt c I).
+    + intros u v n1 o1 n2 o2 Nuv. destruct (Nat.eq_dec u t) as [->|Nu]; destruct (Nat.eq_dec v t) as [->|Nv]; try congruence.
+      * rewrite upd_same, (upd_other _ _ _ _ Nv). cbn. intros E1 E2. apply (i_phne c I t v n1 o1 n2 o2 Nuv); [rewrite Hph; exact E1|exact E2].
+      * rewrite upd_same, (upd_other _ _ _ _ Nu). cbn. intros E1 E2. apply (i_phne c I u t n1 o1 n2 o2 Nuv); [exact E1|rewrite Hph; exact E2].
+      * rewrite (upd_other _ _ _ _ Nu), (upd_other _ _ _ _ Nv). apply (i_phne c I); exact Nuv.
+    + apply (i_split c I).
+    + apply (i_nodup c I).
+    + intros u n1 o1. destruct (Nat.eq_dec u t) as [->|N].
+      * rewrite upd_same. cbn. intro E. apply (i_invoked c I). rewrite Hph. exact E.
+      * rewrite (upd_other _ _ _ _ N). apply (i_invoked c I).
+    + intros u n1 o1. destruct (Nat.eq_dec u t) as [->|N].
+      * rewrite upd_same. cbn. discriminate.
+      * rewrite (upd_other _ _ _ _ N). apply (i_pre c I).
+    + intros u n1 o1 l1. destruct (Nat.eq_dec u t) as [->|N].
+      * rewrite upd_same. cbn. intros E1 E2. apply (i_post c I t n1 o1 l1); rewrite Hph; [exact E1|exact E2].
+      * rewrite (upd_other _ _ _ _ N). apply (i_post c I).
+    + assert (Ht : hmode (ph c t) = Some m) by (rewrite Hph; exact Hn).
+      intro u. destruct (Nat.eq_dec u t) as [->|N].
+      * rewrite upd_same. cbn [hmode]. destruct Hm as [-> | ->]; cbn; [split; discriminate|].
+        split; [|discriminate]. intro E. apply (i_wr c I) in E. congruence.
+      * rewrite (upd_other _ _ _ _ N). destruct Hm as [-> | ->]; cbn; [|apply (i_wr c I)].
+        split; [discriminate|]. intro E. apply (i_wr c I) in E. apply (i_wr c I) in Ht. congruence.
+    + assert (Ht : hmode (ph c t) = Some m) by (rewrite Hph; exact Hn).
+      intro u. destruct (Nat.eq_dec u t) as [->|N].
+      * rewrite upd_same. cbn [hmode]. destruct Hm as [-> | ->]; cbn.
+        -- split; [|discriminate]. intro E. apply (i_rd c I) in E. congruence.
+        -- split; [|discriminate]. intro E. exfalso. exact (remove_In _ _ _ E).
+      * rewrite (upd_other _ _ _ _ N). destruct Hm as [-> | ->]; cbn; [apply (i_rd c I)|].
+        split.
+        -- intro E. apply in_remove in E. apply (i_rd c I). exact (proj1 E).
+        -- intro E. apply in_in_remove; [exact N|]. apply (i_rd c I). exact E.
+    + assert (Ht : hmode (ph c t) = Some m) by (rewrite Hph; exact Hn).
+      destruct Hm as [-> | ->]; cbn; [intro E; congruence|].
+      intro E. exfalso. apply (i_rd c I) in Ht. rewrite (i_wrrd c I E) in Ht. contradiction.
+    + intros u n1 o1 k1 l1 snap. destruct (Nat.eq_dec u t) as [->|N]; [rewrite upd_same; discriminate|].
+      rewrite (upd_other _ _ _ _ N). apply (i_snap c I).
+    + apply (i_shared c I).
+    + apply (i_legal c I).
   - (* return *)
-    rewrite lins_app. cbn [lins]. rewrite app_nil_r.
-    split; [exact Hs|]. split; [exact Hl|]. split; [|split].
+    pose proof (shape_none _ _ Hn) as Hk. destruct k as [|k]; [congruence|].
+    constructor; cbn [shared wr rd ph prog next trace].
+    + intro u. destruct (Nat.eq_dec u t) as [->|N]; [rewrite upd_same; cbn; auto|rewrite (upd_other _ _ _ _ N); apply (i_phase c I)].
+    + intros e He. apply in_app_or in He. destruct He as [He|[<-|[]]]; [exact (i_idlt c I e He)|].
+      cbn. apply (i_phlt c I t n o). rewrite Hph. reflexivity.
+    + intros u n1 o1. destruct (Nat.eq_dec u t) as [->|N].
+      * rewrite upd_same. cbn. discriminate.
+      * rewrite (upd_other _ _ _ _ N). apply (i_phlt c I).
+    + intros u v n1 o1 n2 o2 Nuv. destruct (Nat.eq_dec u t) as [->|Nu]; destruct (Nat.eq_dec v t) as [->|Nv]; try congruence.
+      * rewrite upd_same. cbn. discriminate.
+      * rewrite upd_same, (upd_other _ _ _ _ Nu). cbn. discriminate.
+      * rewrite (upd_other _ _ _ _ Nu), (upd_other _ _ _ _ Nv). apply (i_phne c I); exact Nuv.
+    + apply split_ok_snoc; [apply (i_split c I)|]. cbn. apply (i_post c I t n o l); rewrite Hph; reflexivity.
+    + rewrite calls_snoc_res. apply (i_nodup c I).
+    + intros u n1 o1. destruct (Nat.eq_dec u t) as [->|N].
+      * rewrite upd_same. cbn. discriminate.
+      * rewrite (upd_other _ _ _ _ N). intro E. apply in_or_app. left. exact (i_invoked c I u n1 o1 E).
+    + intros u n1 o1. rewrite calls_snoc_res. destruct (Nat.eq_dec u t) as [->|N].
+      * rewrite upd_same. cbn. discriminate.
+      * rewrite (upd_other _ _ _ _ N). apply (i_pre c I).
+    + intros u n1 o1 l1. destruct (Nat.eq_dec u t) as [->|N].
+      * rewrite upd_same. cbn. discriminate.
+      * rewrite (upd_other _ _ _ _ N). intros E1 E2. apply in_or_app. left. exact (i_post c I u n1 o1 l1 E1 E2).
     + intro u. destruct (Nat.eq_dec u t) as [->|N].
-      * rewrite upd_same. destruct (Hp t) as [ds Hd]. exists (ds ++ [(o, r)]). rewrite proj_app, Hd, Hph. cbn. rewrite Nat.eqb_refl.
-        rewrite <- app_assoc. cbn. rewrite app_nil_r. apply triples_snoc.
-      * rewrite (upd_other _ _ _ _ N). destruct (Hp u) as [ds Hd]. exists ds. rewrite (proj_other u t); [exact Hd|reflexivity|exact N].
-    + unfold lock_inv in *. cbn [lock ph]. destruct (lock c) as [h|].
-      * destruct Hk as [Hh Ho]. split.
-        -- destruct (Nat.eq_dec h t) as [->|N]; [rewrite Hph in Hh; destruct Hh|rewrite (upd_other _ _ _ _ N); exact Hh].
-        -- intros u Nu. destruct (Nat.eq_dec u t) as [->|N]; [rewrite upd_same; exact (fun x => x)|rewrite (upd_other _ _ _ _ N); exact (Ho u Nu)].
-      * intro u. destruct (Nat.eq_dec u t) as [->|N]; [rewrite upd_same; exact (fun x => x)|rewrite (upd_other _ _ _ _ N); exact (Hk u)].
-    + intros u o' snap H. destruct (Nat.eq_dec u t) as [->|N]; [rewrite upd_same in H; discriminate|].
-      rewrite (upd_other _ _ _ _ N) in H. exact (Hr _ _ _ H).
+      * rewrite upd_same. cbn. split; [|discriminate]. intro E. apply (i_wr c I) in E. rewrite Hph in E. discriminate.
+      * rewrite (upd_other _ _ _ _ N). apply (i_wr c I).
+    + intro u. destruct (Nat.eq_dec u t) as [->|N].
+      * rewrite upd_same. cbn. split; [|discriminate]. intro E. apply (i_rd c I) in E. rewrite Hph in E. discriminate.
+      * rewrite (upd_other _ _ _ _ N). apply (i_rd c I).
+    + apply (i_wrrd c I).
+    + intros u n1 o1 k1 l1 snap. destruct (Nat.eq_dec u t) as [->|N]; [rewrite upd_same; discriminate|].
+      rewrite (upd_other _ _ _ _ N). apply (i_snap c I).
+    + rewrite lins_snoc_res. apply (i_shared c I).
+    + rewrite lins_snoc_res. apply (i_legal c I).
 Qed.
 
 Lemma reach_inv progs c : reach progs c -> inv c.
 Proof. induction 1 as [|c c' _ IH St]; [apply inv_start|exact (inv_step _ _ IH St)]. Qed.
 
-Lemma pend_shape p : pending_shape (pend p).
-Proof.
-  destruct p; cbn; unfold pending_shape; eauto.
-Qed.
-
-(* for every schedule and every prefix: the points are a legal sequential run ending in the
-   current shared state, and every thread's events are invocation-point-response triples followed
-   by its pending call *)
-Theorem all_locked_trace progs c : reach progs c ->
+(* ---- the theorems ---- *)
+(* for every schedule and every prefix: the calls in the order of their effects are a legal
+   sequential run ending in the current shared state, and every response in the trace is the result
+   of one of these calls *)
+Theorem atomic_trace progs c : reach progs c ->
   legal init (lins (trace c)) /\
   shared c = run_seq init (lins (trace c)) /\
-  forall t, exists ds, proj t (trace c) = triples ds ++ pend (ph c t).
-Proof. intro H. destruct (reach_inv _ _ H) as (A & B & C & _). auto. Qed.
-
-Theorem all_locked_linearizable progs c : reach progs c -> linearizable (history (trace c)).
+  forall t n o r, In (ERes t n o r) (trace c) -> In (o, r) (lins (trace c)).
 Proof.
-  intro H. destruct (all_locked_trace _ _ H) as (A & _ & C). exists (trace c).
-  split; [reflexivity|]. split; [exact A|]. intro t. destruct (C t) as [ds Hd]. exists ds, (pend (ph c t)).
-  split; [exact Hd|apply pend_shape].
+  intro H. pose proof (reach_inv _ _ H) as I. split; [apply (i_legal c I)|]. split; [apply (i_shared c I)|].
+  intros t n o r Hin. apply in_split in Hin. destruct Hin as (P & Q & HE).
+  pose proof (i_split c I P _ Q HE) as Hok. cbn in Hok.
+  unfold lins. apply in_map_iff. exists (mk_call t n o r). split; [reflexivity|].
+  apply in_calls. rewrite HE. apply in_or_app. left. exact Hok.
+Qed.
+
+Lemma calls_app T1 T2 : calls (T1 ++ T2) = calls T1 ++ calls T2.
+Proof. apply flat_map_app'. Qed.
+
+Lemma calls_before P1 t1 n1 o1 r1 P2 t2 n2 o2 r2 Q2 :
+  before (mk_call t1 n1 o1 r1) (mk_call t2 n2 o2 r2) (calls (P1 ++ EEff t1 n1 o1 r1 :: P2 ++ EEff t2 n2 o2 r2 :: Q2)).
+Proof.
+  exists (calls P1), (calls P2), (calls Q2).
+  rewrite calls_app. cbn [calls flat_map eff_call app]. f_equal. f_equal.
+  change (flat_map eff_call (P2 ++ EEff t2 n2 o2 r2 :: Q2)) with (calls (P2 ++ EEff t2 n2 o2 r2 :: Q2)).
+  rewrite calls_app. reflexivity.
+Qed.
+
+Theorem atomic_linearizable progs c : reach progs c -> linearizable (history (trace c)).
+Proof.
+  intro H. pose proof (reach_inv _ _ H) as I. exists (calls (trace c)).
+  split; [apply (i_nodup c I)|]. split; [|split; [|split]].
+  - (* completed calls *)
+    intros t n o r Hin. apply filter_In in Hin. destruct Hin as [Hin _].
+    apply in_split in Hin. destruct Hin as (P & Q & HE).
+    pose proof (i_split c I P _ Q HE) as Hok. cbn in Hok.
+    apply in_calls. rewrite HE. apply in_or_app. left. exact Hok.
+  - (* only invoked calls *)
+    intros t n o r Hin. apply in_calls in Hin. apply in_split in Hin. destruct Hin as (P & Q & HE).
+    pose proof (i_split c I P _ Q HE) as Hok. cbn in Hok.
+    apply filter_In. split; [|reflexivity]. rewrite HE. apply in_or_app. left. exact Hok.
+  - apply (i_legal c I).
+  - (* real-time order *)
+    intros t1 n1 o1 r1 t2 n2 o2 r2 Hb Hin.
+    apply before_filter in Hb. destruct Hb as (P & M & Q & HE).
+    apply in_calls in Hin.
+    (* the effect of the first call precedes its response *)
+    pose proof (i_split c I P _ _ HE) as Hok1. cbn in Hok1.
+    apply in_split in Hok1. destruct Hok1 as (P1 & P2 & HP).
+    (* the effect of the second call follows its invocation *)
+    assert (HQ : In (EEff t2 n2 o2 r2) Q).
+    { rewrite HE in Hin. rewrite app_comm_cons, app_assoc in Hin. apply in_app_or in Hin. destruct Hin as [Hin|[Hin|Hin]].
+      - exfalso. apply in_split in Hin. destruct Hin as (X1 & X2 & HX).
+        assert (HT : trace c = X1 ++ EEff t2 n2 o2 r2 :: (X2 ++ EInv t2 n2 o2 :: Q)).
+        { rewrite HE, app_comm_cons, app_assoc, HX, <- app_assoc. reflexivity. }
+        pose proof (i_split c I _ _ _ HT) as HokE. cbn in HokE.
+        assert (HT2 : trace c = (P ++ ERes t1 n1 o1 r1 :: M) ++ EInv t2 n2 o2 :: Q).
+        { rewrite HE, app_comm_cons, app_assoc. reflexivity. }
+        pose proof (i_split c I _ _ _ HT2) as HokI. cbn in HokI.
+        assert (Hlt : ev_id (EInv t2 n2 o2) < n2).
+        { apply HokI. rewrite HX. apply in_or_app. left. exact HokE. }
+        cbn in Hlt. lia.
+      - discriminate.
+      - exact Hin. }
+    apply in_split in HQ. destruct HQ as (Q1 & Q2 & HQ).
+    assert (HT3 : trace c = P1 ++ EEff t1 n1 o1 r1 :: (P2 ++ ERes t1 n1 o1 r1 :: M ++ EInv t2 n2 o2 :: Q1) ++ EEff t2 n2 o2 r2 :: Q2).
+    { rewrite HE, HP, HQ. repeat (first [rewrite <- app_assoc|rewrite <- app_comm_cons]). reflexivity. }
+    rewrite HT3. apply calls_before.
+Qed.
+
+(* the call identifiers of the history are distinct *)
+Theorem atomic_ids_unique progs c : reach progs c -> ids_unique (history (trace c)).
+Proof.
+  intro H. pose proof (reach_inv _ _ H) as I. unfold ids_unique.
+  pose proof (i_split c I) as HS. revert HS. generalize (trace c). intro T.
+  induction T as [|e T IH] using rev_ind; intro HS; [constructor|].
+  assert (HS' : split_ok T).
+  { intros P x Q HE. apply (HS P x (Q ++ [e])). rewrite HE, <- app_assoc. reflexivity. }
+  unfold history. rewrite filter_app, flat_map_app'. cbn [filter].
+  destruct e as [t n o|t n o r|t n o r]; cbn [is_hist flat_map inv_id app]; try (rewrite app_nil_r; exact (IH HS')).
+  apply NoDup_snoc; [exact (IH HS')|].
+  intro Hin. apply in_flat_map in Hin. destruct Hin as (e' & He' & Hn).
+  apply filter_In in He'. destruct He' as [He' _].
+  pose proof (HS T (EInv t n o) [] eq_refl) as Hok. cbn in Hok. specialize (Hok e' He').
+  destruct e'; cbn in Hn; try contradiction. destruct Hn as [<-|[]]. cbn in Hok. lia.
 Qed.
 
 End Conc.
